@@ -32,7 +32,8 @@ package queue
 //@ func (*TaskQueue).addFirst
 //@   prop C05
 //@   requires t != nil && NoNil(q.items)
-//@   modifies q.items
+//@   modifies q.items, nMut
+//@   ghostset nMut := nMut + 1
 //@   ensures [len]   len(q.items) == len(old(q.items)) + 1
 //@   ensures [head]  q.items[0] == t
 //@   ensures [rest]  forall(j, 1, len(q.items), q.items[j] == old(q.items)[j-1])
@@ -42,7 +43,8 @@ package queue
 //@ func (*TaskQueue).addLast
 //@   prop C05
 //@   requires t != nil && NoNil(q.items)
-//@   modifies q.items, elems(q.items)
+//@   modifies q.items, elems(q.items), nMut
+//@   ghostset nMut := nMut + 1
 //@   ensures [len]   len(q.items) == len(old(q.items)) + 1
 //@   ensures [tail]  q.items[len(q.items)-1] == t
 //@   ensures [rest]  forall(j, 0, len(old(q.items)), q.items[j] == old(q.items)[j])
@@ -52,7 +54,8 @@ package queue
 //@ func (*TaskQueue).removeFirst
 //@   prop C05
 //@   requires NoNil(q.items)
-//@   modifies q.items
+//@   modifies q.items, nMut
+//@   ghostset nMut := nMut + 1
 //@   let n := old(len(q.items))
 //@   ensures [empty] n == 0 ==> result == nil && len(q.items) == 0
 //@   ensures [head]  n > 0 ==> result == old(q.items[0]) && len(q.items) == n - 1
@@ -62,7 +65,8 @@ package queue
 //@ func (*TaskQueue).removeLast
 //@   prop C05
 //@   requires NoNil(q.items)
-//@   modifies q.items
+//@   modifies q.items, nMut
+//@   ghostset nMut := nMut + 1
 //@   let n := old(len(q.items))
 //@   ensures [empty] n == 0 ==> result == nil && len(q.items) == 0
 //@   ensures [last]  n > 0 ==> result == old(q.items[len(q.items)-1]) && len(q.items) == n - 1
@@ -89,7 +93,8 @@ package queue
 //@ func (*TaskQueue).addAfter
 //@   prop C05
 //@   requires newTask != nil && NoNil(q.items)
-//@   modifies q.items
+//@   modifies q.items, nMut
+//@   ghostset nMut := nMut + 1
 //@   let k := old(firstIdx(q.items, id))
 //@   let n := old(len(q.items))
 //@   ensures [found]  k >= 0 ==> len(q.items) == n + 1 && forall(j, 0, k+1, q.items[j] == old(q.items)[j])
@@ -107,7 +112,8 @@ package queue
 //@ func (*TaskQueue).addBefore
 //@   prop C05
 //@   requires newTask != nil && NoNil(q.items)
-//@   modifies q.items
+//@   modifies q.items, nMut
+//@   ghostset nMut := nMut + 1
 //@   let k := old(firstIdx(q.items, id))
 //@   let n := old(len(q.items))
 //@   ensures [found]  k >= 0 ==> len(q.items) == n + 1 && forall(j, 0, k, q.items[j] == old(q.items)[j])
@@ -124,7 +130,8 @@ package queue
 //@ func (*TaskQueue).remove
 //@   prop C05
 //@   requires NoNil(q.items)
-//@   modifies q.items, elems(q.items)
+//@   modifies q.items, elems(q.items), nMut
+//@   ghostset nMut := nMut + 1
 //@   let k := old(firstIdx(q.items, id))
 //@   let n := old(len(q.items))
 //@   ensures [absent] k < 0 ==> result == nil && q.items == old(q.items) && sameseq(q.items, old(q.items))
@@ -143,7 +150,7 @@ package queue
 //@   prop C05
 //@   opt old=cs
 //@   requires t != nil
-//@   modifies q.items, q.measureActionFn
+//@   modifies q.items, q.measureActionFn, nMut
 //@   ensures [len]   len(q.items) == len(old(q.items)) + 1
 //@   ensures [head]  q.items[0] == t
 //@   ensures [rest]  forall(j, 1, len(q.items), q.items[j] == old(q.items)[j-1])
@@ -152,7 +159,7 @@ package queue
 //@   prop C05
 //@   opt old=cs
 //@   requires t != nil
-//@   modifies q.items, q.measureActionFn, allelems(task.Task)
+//@   modifies q.items, q.measureActionFn, allelems(task.Task), nMut
 //@   ensures [len]   len(q.items) == len(old(q.items)) + 1
 //@   ensures [tail]  q.items[len(q.items)-1] == t
 //@   ensures [rest]  forall(j, 0, len(old(q.items)), q.items[j] == old(q.items)[j])
@@ -161,7 +168,7 @@ package queue
 //@   prop C05
 //@   opt old=cs
 //@   requires newTask != nil
-//@   modifies q.items, q.measureActionFn
+//@   modifies q.items, q.measureActionFn, nMut
 //@   let k := old(firstIdx(q.items, id))
 //@   let n := old(len(q.items))
 //@   ensures [found]  k >= 0 ==> len(q.items) == n + 1 && forall(j, 0, k+1, q.items[j] == old(q.items)[j])
@@ -172,7 +179,7 @@ package queue
 //@   prop C05
 //@   opt old=cs
 //@   requires newTask != nil
-//@   modifies q.items, q.measureActionFn
+//@   modifies q.items, q.measureActionFn, nMut
 //@   let k := old(firstIdx(q.items, id))
 //@   let n := old(len(q.items))
 //@   ensures [found]  k >= 0 ==> len(q.items) == n + 1 && forall(j, 0, k, q.items[j] == old(q.items)[j])
@@ -182,7 +189,7 @@ package queue
 //@ func (*TaskQueue).RemoveFirst
 //@   prop C05
 //@   opt old=cs
-//@   modifies q.items, q.measureActionFn
+//@   modifies q.items, q.measureActionFn, nMut
 //@   let n := old(len(q.items))
 //@   ensures [empty] n == 0 ==> result == nil && len(q.items) == 0
 //@   ensures [head]  n > 0 ==> result == old(q.items[0]) && len(q.items) == n - 1
@@ -191,7 +198,7 @@ package queue
 //@ func (*TaskQueue).RemoveLast
 //@   prop C05
 //@   opt old=cs
-//@   modifies q.items, q.measureActionFn
+//@   modifies q.items, q.measureActionFn, nMut
 //@   let n := old(len(q.items))
 //@   ensures [empty] n == 0 ==> result == nil && len(q.items) == 0
 //@   ensures [last]  n > 0 ==> result == old(q.items[len(q.items)-1]) && len(q.items) == n - 1
@@ -200,7 +207,7 @@ package queue
 //@ func (*TaskQueue).Remove
 //@   prop C05
 //@   opt old=cs
-//@   modifies q.items, q.measureActionFn, allelems(task.Task)
+//@   modifies q.items, q.measureActionFn, allelems(task.Task), nMut
 //@   let k := old(firstIdx(q.items, id))
 //@   let n := old(len(q.items))
 //@   ensures [absent] k < 0 ==> result == nil && sameseq(q.items, old(q.items))
@@ -253,7 +260,8 @@ package queue
 //@ func (*TaskQueue).Filter$1
 //@   prop C05
 //@   requires NoNil(q.items)
-//@   modifies q.items
+//@   modifies q.items, nMut
+//@   ghostset nMut := nMut + 1
 //@   let n := old(len(q.items))
 //@   ensures [len]   len(q.items) == old(kept(q.items, filterFn, len(q.items)))
 //@   ensures [elems] forall(j, 0, n, old(filterFn(q.items[j])) ==> q.items[old(kept(q.items, filterFn, j))] == old(q.items[j]))
@@ -268,7 +276,7 @@ package queue
 //@ func (*TaskQueue).Filter
 //@   prop C05
 //@   opt old=cs
-//@   modifies q.items, q.measureActionFn
+//@   modifies q.items, q.measureActionFn, nMut
 //@   let n := old(len(q.items))
 //@   ensures [len]   filterFn != nil ==> len(q.items) == old(kept(q.items, filterFn, len(q.items)))
 //@   ensures [elems] filterFn != nil ==> forall(j, 0, n, old(filterFn(q.items[j])) ==> q.items[old(kept(q.items, filterFn, j))] == old(q.items[j]))
@@ -283,7 +291,7 @@ package queue
 //@   requires q != nil && t != nil && NoNil(q.items)
 //@   requires NoNil(taskRes.AfterTasks) && NoNil(taskRes.HeadTasks) && NoNil(taskRes.TailTasks)
 //@   requires [assumed:handler-results-do-not-share-the-queue-storage] (len(taskRes.AfterTasks) == 0 || base(taskRes.AfterTasks) != base(q.items)) && (len(taskRes.HeadTasks) == 0 || base(taskRes.HeadTasks) != base(q.items)) && (len(taskRes.TailTasks) == 0 || base(taskRes.TailTasks) != base(q.items))
-//@   modifies q.items, allelems(task.Task)
+//@   modifies q.items, allelems(task.Task), nMut
 //@   let id := t.GetId()
 //@   let p := old(firstIdx(q.items, t.GetId()))
 //@   let n := old(len(q.items))
@@ -332,6 +340,9 @@ package queue
 //@     invariant forall(j, nH+L, nH+L+iter(), q.items[j] == old(taskRes.TailTasks)[j-nH-L])
 
 // ghosts of the worker loop
+// nMut counts the mutations applied to q.items by the current goroutine (ghost).
+//@ ghost nMut int
+//@ ghost nMutAtHandler int
 //@ ghost lastWaited task.Task
 //@ ghost lastHandled task.Task
 //@ ghost lastStatus TaskStatus
@@ -354,7 +365,7 @@ package queue
 //@   modifies q.items, q.measureActionFn, q.Status, q.waitInProgress, q.cancelDelay, lastWaited
 //@   ensures [fresh-check] result != nil ==> ctxfresh()
 //@   ensures [done-nil]    result != nil ==> ctxdone() == old(ctxdone())
-//@   ensures [ghost]       lastWaited == result
+//@   ghostset lastWaited := result
 //@   loop 1
 //@     invariant ctxdone() == old(ctxdone())
 
@@ -368,7 +379,8 @@ package queue
 //@   requires [head-task]     arg0 == lastWaited && arg0 != nil
 //@   requires [no-lock-held]  nolocks()
 //@   requires [fresh-context] ctxfresh()
-//@   modifies lastHandled, lastStatus, lastDelayBefore
+//@   modifies lastHandled, lastStatus, lastDelayBefore, nMutAtHandler
+//@   ghostset nMutAtHandler := nMut
 //@   ensures lastHandled == arg0 && lastStatus == result.Status && lastDelayBefore == result.DelayBeforeNextTask
 //@   ensures NoNil(result.AfterTasks) && NoNil(result.HeadTasks) && NoNil(result.TailTasks)
 
@@ -386,9 +398,10 @@ package queue
 // reaches the handler again.
 //@ func (*TaskQueue).Start$1
 //@   prop C03, C04, C17
-//@   requires q != nil && q.ctx != nil && q.Handler != nil && q.ExponentialBackoffFn != nil && !ctxdone() && lastStatus != Fail
-//@   modifies q.items, q.measureActionFn, q.Status, q.waitInProgress, q.cancelDelay, lastWaited, lastHandled, lastStatus, lastDelayBefore, lastBackoff, allelems(task.Task)
+//@   requires q != nil && q.ctx != nil && q.Handler != nil && q.ExponentialBackoffFn != nil && !ctxdone() && lastStatus != Fail && lastStatus != Repeat
+//@   modifies q.items, q.measureActionFn, q.Status, q.waitInProgress, q.cancelDelay, lastWaited, lastHandled, lastStatus, lastDelayBefore, lastBackoff, nMutAtHandler, allelems(task.Task), nMut
 //@   loop 1
 //@     invariant [no-handler-after-done] !ctxdone()
 //@     invariant [backoff-after-fail]    lastStatus == Fail && lastDelayBefore == 0 ==> sleepDelay == lastBackoff
 //@     invariant [delay-requested]       lastStatus == Fail && lastDelayBefore != 0 ==> sleepDelay == lastDelayBefore
+//@     invariant [failed-task-stays]     lastStatus == Fail || lastStatus == Repeat ==> nMut == nMutAtHandler
